@@ -87,10 +87,12 @@ static void runOps(std::shared_ptr<Ctx> cx, TimerService &svc, const std::vector
       auto ti = cx->get(k);
       ti->gated = f.size() > 3 && f[3] == "g";
       long long t = cx->us();
+      // (the handler may start before this thread gets to log the result: announce the call first)
+      cx->tr.add(vf::Ev("SchedCall").i("k", k).i("d", ms * 1000LL).b("per", op == "per").i("t", t));
       std::uint64_t id = op == "at" ? svc.scheduleAfter(std::chrono::milliseconds(ms), handlerFor(cx, k, ti))
                                     : svc.schedulePeriodic(std::chrono::milliseconds(ms), handlerFor(cx, k, ti));
       ti->id = id;
-      cx->tr.add(vf::Ev("Sched").i("k", k).i("d", ms * 1000LL).b("per", op == "per").i("t", t).b("ok", id != 0));
+      cx->tr.add(vf::Ev("Sched").i("k", k).b("ok", id != 0));
     }
     else if (op == "atsame")
     {
@@ -102,13 +104,15 @@ static void runOps(std::shared_ptr<Ctx> cx, TimerService &svc, const std::vector
       ti->gated = true;
       auto ti2 = cx->get(k2);
       long long t = cx->us();
+      cx->tr.add(vf::Ev("SchedCall").i("k", k).i("d", ms * 1000LL).b("per", false).i("t", t));
+      cx->tr.add(vf::Ev("SchedCall").i("k", k2).i("d", ms * 1000LL).b("per", true).i("t", t));
       auto tp = Clock::now() + std::chrono::milliseconds(ms); // read BEFORE the periodic timer computes its own now()+ms
       std::uint64_t id2 = svc.schedulePeriodic(std::chrono::milliseconds(ms), handlerFor(cx, k2, ti2));
       std::uint64_t id = svc.scheduleAt(tp, handlerFor(cx, k, ti));
       ti->id = id;
       ti2->id = id2;
-      cx->tr.add(vf::Ev("Sched").i("k", k).i("d", ms * 1000LL).b("per", false).i("t", t).b("ok", id != 0));
-      cx->tr.add(vf::Ev("Sched").i("k", k2).i("d", ms * 1000LL).b("per", true).i("t", t).b("ok", id2 != 0));
+      cx->tr.add(vf::Ev("Sched").i("k", k).b("ok", id != 0));
+      cx->tr.add(vf::Ev("Sched").i("k", k2).b("ok", id2 != 0));
     }
     else if (op == "cancel")
     {
@@ -141,6 +145,7 @@ static void runOps(std::shared_ptr<Ctx> cx, TimerService &svc, const std::vector
       int k = atoi(f[1].c_str());
       auto ti = cx->get(k);
       long long t = cx->us();
+      cx->tr.add(vf::Ev("LateCall").i("k", k).i("t", t));
       std::uint64_t id = svc.scheduleAfter(std::chrono::milliseconds(atoi(f[2].c_str())), handlerFor(cx, k, ti));
       ti->id = id;
       cx->tr.add(vf::Ev("Late").i("k", k).b("ok", id != 0).i("t", t));
